@@ -317,9 +317,23 @@ Definition n_samp : bname := (bs "experiment_info", bs "samples").
 Definition n_exp : bname := (bs "experiment_info", bs "expdata").
 Definition n_pmeta : bname := (bs "pix", bs "metadata").
 Definition n_pwrap : bname := (bs "pix", bs "data_wrap").
-(* the tuple in _to_canonical_block_order *)
-Definition canonical_order : list bname :=
-  [n_main; n_detpar; n_dmeta; n_nd; n_inst; n_samp; n_exp; n_pmeta; n_pwrap].
+(* the nine block names the builder knows, as an enumeration (key_name gives the strings) *)
+Inductive bkey := KMain | KDet | KDmeta | KNd | KInst | KSamp | KExp | KPmeta | KPwrap.
+Definition bkey_eqb (a b : bkey) : bool :=
+  match a, b with
+  | KMain, KMain | KDet, KDet | KDmeta, KDmeta | KNd, KNd | KInst, KInst | KSamp, KSamp
+  | KExp, KExp | KPmeta, KPmeta | KPwrap, KPwrap => true
+  | _, _ => false
+  end.
+Definition key_name (k : bkey) : bname :=
+  match k with
+  | KMain => n_main | KDet => n_detpar | KDmeta => n_dmeta | KNd => n_nd | KInst => n_inst
+  | KSamp => n_samp | KExp => n_exp | KPmeta => n_pmeta | KPwrap => n_pwrap
+  end.
+Definition all_keys : list bkey := [KMain; KDet; KDmeta; KNd; KInst; KSamp; KExp; KPmeta; KPwrap].
+Definition key_of_name (n : bname) : option bkey := find (fun k => name_eqb (key_name k) n) all_keys.
+(* the tuple `order` in _to_canonical_block_order (tied to the source by coq-run/C12/Tie.v) *)
+Definition canonical_order : list bkey := all_keys.
 
 Inductive rblock :=
 | RMain
@@ -329,19 +343,19 @@ Inductive rblock :=
 | RDndMeta (m : dnd_meta).
 
 (* Python dict with insertion order *)
-Fixpoint dict_set {V} (d : list (bname * V)) (k : bname) (v : V) : list (bname * V) :=
+Fixpoint dict_set {V} (d : list (bkey * V)) (k : bkey) (v : V) : list (bkey * V) :=
   match d with
   | [] => [(k, v)]
-  | (k', v') :: t => if name_eqb k' k then (k', v) :: t else (k', v') :: dict_set t k v
+  | (k', v') :: t => if bkey_eqb k' k then (k', v) :: t else (k', v') :: dict_set t k v
   end.
-Fixpoint dict_get {V} (d : list (bname * V)) (k : bname) : option V :=
+Fixpoint dict_get {V} (d : list (bkey * V)) (k : bkey) : option V :=
   match d with
   | [] => None
-  | (k', v') :: t => if name_eqb k' k then Some v' else dict_get t k
+  | (k', v') :: t => if bkey_eqb k' k then Some v' else dict_get t k
   end.
 
 Record bstate := {
-  st_blocks : list (bname * rblock);
+  st_blocks : list (bkey * rblock);
   st_nfiles : N;                         (* main_header.nfiles *)
   st_dnd : option (list N);              (* _dnd_placeholder.shape *)
   st_pix : option pixwrap;
@@ -350,7 +364,7 @@ Record bstate := {
   st_ndims : N
 }.
 Definition st_init : bstate :=
-  {| st_blocks := [(n_main, RMain)]; st_nfiles := 0; st_dnd := None; st_pix := None;
+  {| st_blocks := [(KMain, RMain)]; st_nfiles := 0; st_dnd := None; st_pix := None;
      st_inst := None; st_samp := None; st_ndims := 0 |}.
 
 Inductive call :=
@@ -363,15 +377,15 @@ Inductive call :=
 Definition apply_call (st : bstate) (c : call) : bstate :=
   match c with
   | CPix p xs nd =>
-      {| st_blocks := dict_set (dict_set (st_blocks st) n_exp (RExp xs)) n_pmeta (RPixMeta p);
+      {| st_blocks := dict_set (dict_set (st_blocks st) KExp (RExp xs)) KPmeta (RPixMeta p);
          st_nfiles := N.of_nat (length xs); st_dnd := st_dnd st; st_pix := Some p;
          st_inst := st_inst st; st_samp := st_samp st; st_ndims := nd |}
   | CDet =>
-      {| st_blocks := dict_set (st_blocks st) n_detpar RDet;
+      {| st_blocks := dict_set (st_blocks st) KDet RDet;
          st_nfiles := st_nfiles st; st_dnd := st_dnd st; st_pix := st_pix st;
          st_inst := st_inst st; st_samp := st_samp st; st_ndims := st_ndims st |}
   | CDnd m =>
-      {| st_blocks := dict_set (st_blocks st) n_dmeta (RDndMeta m);
+      {| st_blocks := dict_set (st_blocks st) KDmeta (RDndMeta m);
          st_nfiles := st_nfiles st; st_dnd := Some (ax_nbins (dm_axes m)); st_pix := st_pix st;
          st_inst := st_inst st; st_samp := st_samp st; st_ndims := st_ndims st |}
   | CInst i =>
@@ -404,29 +418,27 @@ Definition ir_of (ev : env) (title : bytes) (st : bstate) (r : rblock) : obj :=
   end.
 
 (* _prepare_data_blocks: IR of every regular block, instruments/samples appended, canonical order *)
-Definition dict_has {V} (d : list (bname * V)) (k : bname) : bool :=
-  match dict_get d k with Some _ => true | None => false end.
-Definition to_canonical {V} (order : list bname) (d : list (bname * V)) : list (bname * V) :=
+Definition to_canonical {V} (order : list bkey) (d : list (bkey * V)) : list (bkey * V) :=
   flat_map (fun k => match dict_get d k with Some v => [(k, v)] | None => [] end) order
-  ++ filter (fun kv => negb (existsb (name_eqb (fst kv)) order)) d.
+  ++ filter (fun kv => negb (existsb (bkey_eqb (fst kv)) order)) d.
 
-Definition prepared (order : list bname) (ev : env) (title : bytes) (st : bstate) : list (bname * obj) :=
+Definition prepared (order : list bkey) (ev : env) (title : bytes) (st : bstate) : list (bkey * obj) :=
   let d0 := map (fun kv => (fst kv, ir_of ev title st (snd kv))) (st_blocks st) in
   let d1 := match st_inst st with
-            | Some i => dict_set d0 n_inst (broadcast_ref (bs "GLOBAL_NAME_INSTRUMENTS_CONTAINER") (bs "IX_inst")
+            | Some i => dict_set d0 KInst (broadcast_ref (bs "GLOBAL_NAME_INSTRUMENTS_CONTAINER") (bs "IX_inst")
                                                           (ir_instrument i) (st_nfiles st))
             | None => d0 end in
   let d2 := match st_samp st with
-            | Some s => dict_set d1 n_samp (broadcast_ref (bs "GLOBAL_NAME_SAMPLES_CONTAINER") (bs "IX_samp")
+            | Some s => dict_set d1 KSamp (broadcast_ref (bs "GLOBAL_NAME_SAMPLES_CONTAINER") (bs "IX_samp")
                                                           (ir_sample s) (st_nfiles st))
             | None => d1 end in
   to_canonical order d2.
 
 (* _serialize_data_blocks: regular blocks, then the dnd placeholder, then the pixel wrap *)
-Definition file_blocks (order : list bname) (e : endian) (ev : env) (b : bound_kind) (chunk : N)
+Definition file_blocks (order : list bkey) (e : endian) (ev : env) (b : bound_kind) (chunk : N)
            (title : bytes) (st : bstate) : list blk :=
   map (fun kv => let body := encode_obj e (snd kv) in
-                 {| b_type := s_data_block; b_n1 := fst (fst kv); b_n2 := snd (fst kv);
+                 {| b_type := s_data_block; b_n1 := fst (key_name (fst kv)); b_n2 := snd (key_name (fst kv));
                     b_declared := len body; b_bytes := body |}) (prepared order ev title st)
   ++ match st_dnd st with
      | Some sh => [{| b_type := s_dnd_block; b_n1 := fst n_nd; b_n2 := snd n_nd;
@@ -437,7 +449,7 @@ Definition file_blocks (order : list bname) (e : endian) (ev : env) (b : bound_k
                      b_declared := pix_declared_size p; b_bytes := pix_write e b chunk p |}]
      | None => [] end.
 
-Definition encode_file (order : list bname) (e : endian) (ev : env) (b : bound_kind) (title : bytes)
+Definition encode_file (order : list bkey) (e : endian) (ev : env) (b : bound_kind) (title : bytes)
            (cs : list call) (chunk : N) : bytes :=
   let st := run_calls cs in
   layout e (st_ndims st) (file_blocks order e ev b chunk title st).
